@@ -149,6 +149,105 @@ class Ctx(object):
             self.report(case, wcase, res, why, phase=name)
         return r
 
+    def builder_trace_phase(self, name, ntraces, maxlen):
+        """code -> spec: traces recorded from the real ArrayBuilder (seeded random driver) validated by TraceBuilder.tla,
+        preceded by a binding self-test (a corrupted and a truncated trace must be rejected)."""
+        import copy
+        import traces as trmod
+        only = os.environ.get("VERIF_ONLY_PHASES")
+        if only and name not in only.split(","):
+            return
+        built = self.build("opt")
+        trs, problems = trmod.record_builder_traces(built["worker"], self.seed * 7919 + 13, ntraces, maxlen)
+        wd = os.path.join(self.workdir, name)
+        # ---- binding self-test
+        probe = [t for t in trs if len(t) >= 6 and all(e["ok"] == 1 for e in t[:6]) and any(e["cmd"]["c"] in ("int", "real", "null", "bool", "str") for e in t[:6])][:2]
+        if len(probe) == 2:
+            bad1 = copy.deepcopy(probe[0])
+            k = max(i for i, e in enumerate(bad1[:6]) if e["cmd"]["c"] in ("int", "real", "null", "bool", "str"))
+            bad1[k]["cmd"] = {"c": "int", "x": 424242}           # the log claims another value was appended
+            bad2 = copy.deepcopy(probe[1])
+            k2 = max(i for i, e in enumerate(bad2[:6]) if e["cmd"]["c"] in ("int", "real", "null", "bool", "str"))
+            del bad2[k2]                                          # one call is missing from the log
+            r, summary, rej = trmod.validate_builder_traces([bad1, bad2], os.path.join(wd, "selftest"))
+            if not summary or summary[1] < 1:
+                raise MachineryError("trace validation self-test: corrupted traces were accepted (%r)" % (summary,))
+            self.notes.append("%s: binding self-test: %d of 2 corrupted traces rejected" % (name, summary[1]))
+        r, summary, rej = trmod.validate_builder_traces(trs, wd)
+        if not summary:
+            sys.stderr.write(r.log[-3000:] + "\n")
+            raise MachineryError("trace validation did not complete")
+        self.traces += summary[0]
+        self.trace_events += sum(len(t) for t in trs)
+        self.phases.append({"phase": name, "module": "TraceBuilder", "traces": summary[0], "events": sum(len(t) for t in trs),
+                            "rejected": summary[1], "tlc_wall_s": round(r.wall, 1)})
+        if trs:
+            self.samples.append({"trace_events": trs[0][:4]})
+        for t, why in problems:
+            self.report({"act": "builder-trace", "trace": t}, None, None, why, phase=name)
+        for tid, line, why, detail in rej:
+            self.report({"act": "builder-trace", "trace": trs[int(tid) - 1][:int(line)]}, None, None,
+                        "trace rejected by Builder.tla at event %s: %s %s" % (line, why, detail[:200]), phase=name)
+
+    def chain_phase(self, name, ntraces, maxops, variant="asan"):
+        """code -> spec for the value operations: chains of real calls on real by-product layouts, every event validated
+        by TraceSession.tla (AkValue's operators applied to the logged operand), preceded by a binding self-test."""
+        import copy
+        import traces as trmod
+        only = os.environ.get("VERIF_ONLY_PHASES")
+        if only and name not in only.split(","):
+            return
+        built = self.build(variant)
+        trs, metas, problems = trmod.record_chains(built["worker"], self.seed * 104729 + 7, ntraces, maxops)
+        wd = os.path.join(self.workdir, name)
+        # ---- binding self-test: a changed result and a dropped event must be rejected
+        probe = [t for t in trs if len(t) >= 3 and t[0]["ok"] == 1 and t[0]["out"].get("t") == "list"
+                 and t[1]["ok"] == 1 and t[1]["out"] != t[1]["v"]][:2]
+        if len(probe) == 2:
+            bad1 = copy.deepcopy(probe[0])
+            bad1[0]["out"]["xs"] = bad1[0]["out"]["xs"] + [{"t": "int", "x": 424242}]     # the log claims one more element
+            bad1 = bad1[:1]
+            bad2 = copy.deepcopy(probe[1])
+            del bad2[1]                                                                # one call is missing from the log
+            r, summary, rej = trmod.validate_chains([bad1, bad2], os.path.join(wd, "selftest"))
+            if not summary or summary[1] < 2:
+                raise MachineryError("chain validation self-test: corrupted traces were accepted (%r)" % (summary,))
+            self.notes.append("%s: binding self-test: %d of 2 corrupted traces rejected" % (name, summary[1]))
+        r, summary, rej = trmod.validate_chains(trs, wd)
+        if not summary:
+            sys.stderr.write(r.log[-3000:] + "\n")
+            raise MachineryError("chain validation did not complete")
+        nev = sum(len(t) for t in trs)
+        self.traces += summary[0]
+        self.trace_events += nev
+        ops = {}
+        for t in trs:
+            for e in t:
+                ops[e["op"]] = ops.get(e["op"], 0) + 1
+        self.phases.append({"phase": name, "module": "TraceSession", "traces": summary[0], "events": nev, "events_by_op": ops,
+                            "rejected": summary[1], "problems_seen_without_spec": len(problems), "tlc_wall_s": round(r.wall, 1)})
+        if trs:
+            self.samples.append({"chain_events": [{"op": e["op"], "args": e["args"], "ok": e["ok"]} for e in trs[0][:4]]})
+        for m, why in problems:
+            self.report(m, m.get("worker_case"), None, why, phase=name)
+        for tid, line, why, detail in rej:
+            m = metas[int(tid) - 1][int(line) - 1]
+            ev = trs[int(tid) - 1][int(line) - 1]
+            try:
+                spec = json.loads(detail.replace('\\"', '"'))["spec"]
+            except Exception:
+                spec = {"ok": "?"}
+            if why.startswith("events not linked"):
+                text = "harness: " + why
+            elif spec.get("ok") == 0:
+                text = "spec: must raise; library returned %s" % m.get("lib")
+            elif ev["ok"] == 0:
+                text = "spec: value expected; library raised %s" % m.get("lib")
+            else:
+                text = "value differs: library %s" % m.get("lib")
+            m = dict(m, spec=spec)
+            self.report(m, None, None, text, phase=name)
+
     def _take_samples(self, path, k=2):
         if len(self.samples) >= 6:
             return
@@ -164,7 +263,9 @@ class Ctx(object):
 
     # ---------------------------------------------------------------- verdict bookkeeping
     def report(self, case, wcase, res, why, phase=""):
-        fid = match_finding(self.findings, case, why)
+        import re as _re
+        m = _re.match(r"^\w+ via the Python layer: (.*)$", why, _re.S)
+        fid = match_finding(self.findings, case, m.group(1) if m else why)
         if fid is not None:
             self.known_hits[fid] = self.known_hits.get(fid, 0) + 1
             return
@@ -241,7 +342,9 @@ def load_findings(prop):
         return []
     with open(p) as f:
         allf = json.load(f)
-    return [x for x in allf.get("findings", []) if prop in x.get("properties", [x.get("property")])]
+    # development aid only (never set by a registered command): look at what a matcher hides, e.g. when testing a fix
+    off = set(filter(None, os.environ.get("VERIF_DEV_WITHOUT_FINDINGS", "").split(",")))
+    return [x for x in allf.get("findings", []) if prop in x.get("properties", [x.get("property")]) and x["id"] not in off]
 
 
 def match_finding(findings, case, why):
